@@ -100,6 +100,10 @@ func runCase(k int, seed uint64, tier string) *caseOut {
 		jumpCase(c, r, k == 7 || k%20 == 18)
 		return c
 	}
+	if k == 8 || (tier == "thorough" && k%50 == 27) {
+		pagesCase(c, r, tier == "thorough" && k != 8, k%100 == 27)
+		return c
+	}
 	p := drawParams(k, r, tier)
 	c.cnt.count("kind:" + p.kind)
 	steps := genSchedule(r, uint32(p.n), p.pfMille, p.hdrs)
